@@ -445,9 +445,12 @@ def attr_classes():
     scale: Any = 1.0
     tags: Any = ()
     cfg: Any = None
+    layer_cls: Any = None    # a CLASS as attribute value (norm_cls=nn.LayerNorm style configuration)
 
     @nn.compact
     def __call__(self, x):
+      if self.layer_cls is not None:
+        x = self.layer_cls()(x)
       p = self.param('p', nn.initializers.ones, (x.shape[-1],))
       ax = self.axis if isinstance(self.axis, (int, tuple)) else int(self.axis)
       y = jnp.sum(x * p, axis=ax) * self.scale
@@ -464,7 +467,15 @@ def attr_classes():
     def __call__(self, x):
       return self.child(x) + 1.0
 
-  _ATTR.update(A=A, JA=nn.jit(A), JHolder=nn.jit(Holder), Holder=Holder)
+  class Twice(nn.Module):   # two module classes with the same fields (none) and different behaviour
+    def __call__(self, x):
+      return x * 2.0
+
+  class Thrice(nn.Module):
+    def __call__(self, x):
+      return x * 3.0 + 1.0
+
+  _ATTR.update(A=A, JA=nn.jit(A), JHolder=nn.jit(Holder), Holder=Holder, Twice=Twice, Thrice=Thrice)
   return _ATTR
 
 
@@ -473,7 +484,8 @@ def attr_classes():
 ATTR_VALUES = [dict(axis=-1), dict(axis=-2), dict(axis=0), dict(axis=(-1,)), dict(axis=(-2,)), dict(scale=-1.0), dict(scale=-2.0),
                dict(scale=-1), dict(scale=-2), dict(scale=1.0), dict(scale=2.0 ** 61), dict(tags=(-1,)), dict(tags=(-2,)), dict(tags=('a', -1)),
                dict(tags=('a', -2)), dict(tags='ab'), dict(tags='abc'), dict(cfg=(('k', -1),)), dict(cfg=(('k', -2),)),
-               dict(axis=-2, scale=-1.0), dict(axis=-1, scale=-2.0)]
+               dict(axis=-2, scale=-1.0), dict(axis=-1, scale=-2.0), dict(layer_cls='Twice'), dict(layer_cls='Thrice'),
+               dict(layer_cls='Twice', axis=-2), dict(layer_cls='Thrice', axis=-2)]
 
 
 def run_attr_history(ctx, i, rng):
@@ -484,13 +496,13 @@ def run_attr_history(ctx, i, rng):
   form = ['class', 'holder'][i % 2]
   order = list(range(len(ATTR_VALUES)))
   rng.shuffle(order)
-  order = order[:8]
+  order = order[:10]
   desc = dict(form=form, order=[ATTR_VALUES[j] for j in order])
   with ctx.case('attr_history', i, desc, nontrivial=True):
     x = np.random.default_rng(i).uniform(-1, 1, size=(2, 3, 3)).astype(np.float32)
     v = C['A']().init(jax.random.key(0), x)
     for j in order:
-      kw = ATTR_VALUES[j]
+      kw = {k: (C[v] if k == 'layer_cls' else v) for k, v in ATTR_VALUES[j].items()}
       if form == 'class':
         got = C['JA'](**kw).apply(v, x)
         want = C['A'](**kw).apply(v, x)
@@ -643,14 +655,16 @@ def helper_classes(tr_name, n_helper, n_after, twice):
     return _HELPER[key]
   import flax.linen as nn
   import jax.numpy as jnp
-  tr = {'plain': (lambda f: f), 'jit': nn.jit, 'remat': nn.remat}[tr_name]
+  class_form = tr_name.endswith('_class_methods')   # nn.jit(Cls, methods=['helper']) instead of decorating the method
+  tr = {'plain': (lambda f: f), 'jit': nn.jit, 'remat': nn.remat}[tr_name.split('_')[0]]
+  mtr = (lambda f: f) if class_form else tr
 
   class M(nn.Module):
     def helper(self, x):
       for _ in range(n_helper):
         x = jnp.tanh(nn.Dense(3)(x))      # auto-named Dense_0 ..
       return x
-    helper = tr(helper)
+    helper = mtr(helper)
 
     @nn.compact
     def __call__(self, x):
@@ -661,6 +675,8 @@ def helper_classes(tr_name, n_helper, n_after, twice):
         x = nn.Dense(3)(x)                 # must continue the numbering after the helper's layers
       return x
 
+  if class_form:
+    M = tr(M, methods=['helper'])
   _HELPER[key] = M
   return M
 
@@ -670,7 +686,7 @@ def run_jit_helper(ctx, i, rng):
   the numbering of auto-names must go on after the helper on every call - also when the jitted helper is a trace-cache hit."""
   import jax
   from flax.core import unfreeze
-  tr_name = ['jit', 'jit', 'remat'][i % 3]
+  tr_name = ['jit', 'jit_class_methods', 'remat', 'jit', 'remat_class_methods', 'jit_class_methods'][i % 6]
   n_helper, n_after, twice = 1 + (i // 3) % 2, 1 + (i // 6) % 2, (i // 12) % 2 == 1
   same_instance = (i // 24) % 2 == 1
   desc = dict(transform=tr_name, helper_layers=n_helper, layers_after=n_after, helper_called_twice=twice, same_instance=same_instance)
@@ -680,6 +696,8 @@ def run_jit_helper(ctx, i, rng):
     vs = unfreeze(P().init(jax.random.key(i), x))
     vl = unfreeze(L().init(jax.random.key(i), x))
     ctx.op('nn.%s(helper method creating auto-named sub-modules)' % tr_name)
+    if tr_name.endswith('_class_methods'):
+      desc['class_form'] = True
     ctx.check(shapes(vl) == shapes(vs), 'init:tree_structure:lifted_helper_method', lambda: dict(case=desc, lifted=shapes(vl), plain=shapes(vs)))
     want = P().apply(vs, x)
     inst = L()
@@ -798,7 +816,7 @@ def run(ctx):
     run_history(ctx, i, ctx.rng('history', i))
   for i in ctx.indices(18 if ctx.tier == 'quick' else 72, 'jit_kwargs'):
     run_jit_kwargs(ctx, i, ctx.rng('jit_kwargs', i))
-  for i in ctx.indices(24 if ctx.tier == 'quick' else 96, 'jit_helper'):
+  for i in ctx.indices(48 if ctx.tier == 'quick' else 96, 'jit_helper'):
     run_jit_helper(ctx, i, ctx.rng('jit_helper', i))
   for i in ctx.indices(48 if ctx.tier == 'quick' else 400, 'attr_children'):
     run_attr_children(ctx, i, ctx.rng('attr_children', i))
